@@ -33,6 +33,8 @@ pub struct GenParams {
     pub transitions: bool,
     /// lower bound for the number of modes (mode-graph checks want >= 2 most of the time)
     pub min_modes: usize,
+    /// share (of 256) of cases drawn from the large-case generators
+    pub large_per_256: usize,
 }
 
 impl GenParams {
@@ -50,6 +52,7 @@ impl GenParams {
             class_depth: 2,
             transitions: false,
             min_modes: 1,
+            large_per_256: 5,
         }
     }
     pub fn thorough() -> Self {
@@ -531,5 +534,131 @@ pub fn gen_any_char(d: &mut Dec) -> char {
             let i = d.below(crate::sets::NSCALARS);
             crate::sets::char_of(i)
         }
+    }
+}
+
+
+// --- large cases -------------------------------------------------------------------------------
+// Defects confined to sizes beyond a threshold (more than 16 transitions, 64 classes or patterns,
+// 128 tokens, 4096 bytes ...) are invisible to small cases; a small share of the cases is therefore
+// drawn from these generators.
+
+/// A wide alphabet for large pattern sets (every literal is a character class of its own).
+pub fn wide_alphabet() -> Vec<char> {
+    let mut v: Vec<char> = ('a'..='z').chain('A'..='Z').chain('0'..='9').collect();
+    v.extend("éßΩ€中😀дяñøæþλπσ♥".chars());
+    v
+}
+
+/// A mode with many patterns (17-140): mostly distinct single literals (more than 64 character
+/// classes), copies of earlier patterns (same language, other token type / lookahead), short
+/// sequences and a few generated expressions.
+pub fn gen_large_mode(d: &mut Dec, p: &GenParams, name: &str) -> ModeSpec {
+    let wide = wide_alphabet();
+    let n = match d.below(4) {
+        0 => 17 + d.below(24),
+        1 => 63 + d.below(6),
+        2 => 65 + d.below(30),
+        _ => 100 + d.below(41),
+    };
+    let small = GenParams {
+        max_depth: 2,
+        max_nodes: 6,
+        ..p.clone()
+    };
+    let offset = d.below(wide.len());
+    let mut pats: Vec<PatSpec> = Vec::with_capacity(n);
+    for i in 0..n {
+        let rx = match d.weighted(&[11, 4, 2, 3]) {
+            0 => Rx::Lit(wide[(offset + i) % wide.len()], LitForm::Verbatim),
+            1 if i > 0 => {
+                // a copy: prefer the pattern 64 places earlier (aliasing of 64-bit masks)
+                let j = if i >= 64 && d.bool() { i - 64 } else { d.below(i) };
+                pats[j].rx.clone()
+            }
+            2 => Rx::Concat(vec![
+                Rx::Lit(*d.pick(&wide), LitForm::Verbatim),
+                Rx::Lit(*d.pick(&wide), LitForm::Verbatim),
+            ]),
+            _ => gen_pattern_rx(d, &small),
+        };
+        let tt = if d.chance(200) { i } else { 1000 + i * 3 };
+        let la = if p.lookahead_per_256 > 0 && d.chance(p.lookahead_per_256) {
+            Some(LaSpec {
+                positive: d.bool(),
+                rx: if d.bool() {
+                    Rx::Lit(*d.pick(&wide), LitForm::Verbatim)
+                } else {
+                    gen_lookahead_rx(d, &small)
+                },
+            })
+        } else {
+            None
+        };
+        pats.push(PatSpec { rx, tt, la });
+    }
+    // token types distinct
+    for i in 0..pats.len() {
+        while pats[..i].iter().any(|q| q.tt == pats[i].tt) {
+            pats[i].tt += 5000;
+        }
+    }
+    ModeSpec {
+        name: name.to_string(),
+        pats,
+        transitions: vec![],
+    }
+}
+
+/// Many transitions (up to 40) for a mode with many token types.
+pub fn add_many_transitions(d: &mut Dec, modes: &mut [ModeSpec], mi: usize) {
+    let nm = modes.len();
+    let mut tts: Vec<usize> = modes[mi].pats.iter().map(|p| p.tt).collect();
+    tts.sort_unstable();
+    tts.dedup();
+    let want = 17 + d.below(24);
+    let step = (tts.len() / want.min(tts.len()).max(1)).max(1);
+    let mut ts = Vec::new();
+    for (k, t) in tts.iter().enumerate() {
+        if k % step == 0 && ts.len() < want {
+            ts.push((*t, d.below(nm)));
+        }
+    }
+    ts.sort_unstable();
+    modes[mi].transitions = ts;
+}
+
+/// A long input (lo..hi characters) made of words of the configuration, so that it contains many
+/// tokens.
+pub fn gen_long_input(d: &mut Dec, model: &Model, lo: usize, hi: usize) -> String {
+    let target = lo + d.below(hi - lo + 1);
+    let mut s = String::new();
+    let mut n = 0;
+    let mut guard = 0;
+    while n < target && guard < 4 * target + 16 {
+        guard += 1;
+        let piece = gen_input(d, model, 8);
+        n += piece.chars().count().max(1);
+        s.push_str(&piece);
+        if piece.is_empty() {
+            s.push(gen_char(d));
+        }
+    }
+    s
+}
+
+/// The argument of peek_n: small most of the time, sometimes beyond 128 / 256 / 65 536 tokens, and
+/// rarely the largest value (a preallocation of n elements must not be attempted blindly).
+pub fn gen_peek_n(d: &mut Dec, small: usize) -> usize {
+    gen_peek_n_opt(d, small, false)
+}
+
+/// `huge`: also the largest values (only in the checks whose property covers every n and the
+/// absence of panics: C07, C11).
+pub fn gen_peek_n_opt(d: &mut Dec, small: usize, huge: bool) -> usize {
+    match d.weighted(&[60, 2, if huge { 1 } else { 0 }]) {
+        0 => d.below(small),
+        1 => *d.pick(&[17usize, 64, 65, 128, 129, 130, 200, 256, 257, 1000, 65_536]),
+        _ => *d.pick(&[usize::MAX, usize::MAX / 2 + 1]),
     }
 }
